@@ -75,7 +75,9 @@ def answer (kv : KV) (bg : Nat → Nat → Nat → (Nat → Option Id) → Bool 
       -- the harness source is `iter::from_fn` (size hint `(0, None)`), optionally panicking on its k-th call
       let r := collectOp true true n (0, none) ⟨script, 0, OwnE.faultIdx fault "poll"⟩
       let res := match r.2 with | .ok _ => "ok" | .err => "err" | .panicked => "panicked"
-      s!"res={res} items=[{showNats (r.2.ids.map idOf)}]{showDrops (drops r.1 ++ r.2.ids)}"
+      -- `Vec::with_capacity(N)` is the one allocation: if it fails, std ends the process through handle_alloc_error
+      if fault.startsWith "alloc:" && n * esz > 0 then "res=abort(alloc_error)" else
+      s!"res={res} items=[{showNats (r.2.ids.map idOf)}] polls={polls r.1}{showDrops (drops r.1 ++ r.2.ids)}"
     | "box_map" =>
       let r := mapOp .boxed f arr
       let res := match r.2 with | .ok _ => "ok" | .err => "err" | .panicked => "panicked"
